@@ -54,6 +54,15 @@ var c07MaskPaths = [][]string{{"cert"}, {"digest"}, {"timestamp"}, {"sev_snp.mea
 	{"sev_snp.measurements[4294967295]"}, {"sev_snp.measurements[1]", "sev_snp.policy"}, {"tdx.measurements"}, {"tdx.measurements[0]"}, {"tdx.measurements[0].mrtd", "tdx.measurements[7].ram_gib"},
 	{"ca_bundle"}, {"sev_snp.svsm_measurement"}, {"digest", "digest"}, {"timestamp.seconds"}, {"no_such_field"}, {"sev_snp.measurements[x]"}, {""}}
 
+// c07PickMask draws the paths of one `inspect mask` request: half of the time one of the paths that
+// print a whole map or message (where everything a sender put into it is walked), else any.
+func c07PickMask(r *core.Run) []string {
+	if r.Bool("broad-mask") {
+		return [][]string{{"sev_snp.measurements"}, {"sev_snp"}, {"tdx"}, {"tdx.measurements"}}[r.Intn(4, "broad-mask-path")]
+	}
+	return c07MaskPaths[r.Intn(len(c07MaskPaths), "mask")]
+}
+
 func init() {
 	core.Register(&core.Check{
 		ID: "C07", World: "R+S (relying party, streams)", Level: "exploration",
@@ -239,7 +248,7 @@ func runC07(r *core.Run) {
 					gcetcbendorsement.InspectSignature(ictx, le)
 				}
 			case 8:
-				paths := c07MaskPaths[r.Intn(len(c07MaskPaths), "mask")]
+				paths := c07PickMask(r)
 				name, call = "InspectMask", func() {
 					ictx := gcetcbendorsement.WithInspect(ctx, &gcetcbendorsement.Inspect{Writer: gcetcbendorsement.NonterminalWriter{Writer: io.Discard}, Form: gcetcbendorsement.BytesHexGuidify})
 					gcetcbendorsement.InspectMask(ictx, le, &fmpb.FieldMask{Paths: paths})
@@ -261,7 +270,7 @@ func runC07(r *core.Run) {
 						args = []string{"inspect", "payload", "e.binarypb", "--bytesform", form}
 					default:
 						args = []string{"inspect", "mask", "e.binarypb", "--bytesform", form}
-						for _, p := range c07MaskPaths[r.Intn(len(c07MaskPaths), "mask")] {
+						for _, p := range c07PickMask(r) {
 							args = append(args, "--path", p)
 						}
 					}
